@@ -7,48 +7,67 @@ import CalicoVerif.Props.C11
 /-!
 C12 — all dataplanes agree on the policy verdict.
 
-**Composition over one reference** (`dataplanes_agree_partial`): for one workload policy
-state and one packet of the common fragment, it chains
-  * a10's `C09.endpoint_chain_verdict_core` (evaluation of the RENDERED iptables/nftables endpoint,
-    group, policy and profile chains reaches `C09.endpointVerdict`),
-  * `C11.polprog_verdict_partial` (the instructions of the BPF policy program, interpreted, end
-    as the C11 reference verdict demands), and
-  * `checkTiers_ref` (the model of the app-policy checker computes the C11 reference verdict),
-through `endpointVerdict_bridge`, the proof that the two REFERENCE semantics
-(`C09.endpointVerdict` over `Model/Policy.ruleMatches`, and the C11 reference) coincide on
-that fragment.  Conclusion: the chain evaluation, the BPF program and the checker all yield
-the same verdict `v`.
+Three implementations decide a workload endpoint's policy: the iptables/nftables renderer (chains,
+evaluated by the netfilter model of C08/C09), the BPF policy program (C11: instructions, interpreted)
+and the app-policy checker (Go loops `checkTiers`/`checkRules`, modelled in `Model/C12.lean`).  The
+statements below say that they reach ONE verdict; each is proved by tying every side to ONE reference
+semantics.  Names ending in `_partial` are restricted; what each one does NOT cover is listed with it.
 
-Common fragment (all explicit hypotheses): criteria protocol / not-protocol only (8-bit
-numbers or names), lower-case API actions, NO pass/next-tier rule in a profile, every tier with
-at least one enforced policy, IPv4, BPF build not split, plus the hypotheses of the two composed theorems (rendered chains present in the
-chain set, rule renderings exact — C08, ≤ 2 positive match blocks —, marks disjoint, packet is a
-NEW connection, …).  The layout of the iptables side (tiers → groups → policies) enters through
-`hT`/`hP`: its per-tier outcome lists are those of the shared tiers' policies.
+## Main statements
 
-Other theorems:
-* `ref_semantics_agree_partial` (formerly `ipt_bpf_agree_partial`) — two hand-written REFERENCE
-  functions coincide when no profile has a pass rule: the mark-bit model of the profile part of the
-  iptables endpoint chain (`iptVerdict`, tied to the real renderer only by the correspondence
-  run) and the C11 reference.  It says nothing about rendered chains or compiled programs by
-  itself — that is `dataplanes_agree_partial`.
-* `checker_rules_ref`, `checker_profiles_ref`, `checker_tiers_ref` — the checker model's loops
-  compute the reference decisions on protocol-only rules (hypotheses quantify over the rules of the
-  lists only; satisfiable: example below).
-* `checker_tiers_nets_ref`, `checker_bpf_agree_nets_partial` — the checker model WITH literal CIDR
-  criteria (`matchSrcNet`/`matchDstNet`: source / not-source / destination / not-destination IPv4
-  CIDR lists, next to protocol / not-protocol) computes the reference verdict, and therefore agrees
-  with the BPF program's verdict (`C11.polprog_verdict_partial`) on that fragment.  The iptables
-  side with CIDRs is covered by the correspondence run (real renderer + chain evaluator) only, not
-  by a theorem — the composition with a10's chain theorem stays protocol-only (`_partial`).
-* `references_agree_full_partial`, `ipt_bpf_agree_full_partial` — the two REFERENCE semantics
-  (`Model/Policy.ruleMatches` / `C09.endpointVerdict`, and the C11 reference) are unified for ALL
-  criteria (IPv4 CIDR lists, ports, named ports, IP sets, (ip,port) sets, ICMP and the negations), and the
-  rendered iptables/nftables chains and the BPF program agree on that fragment;
-  `dataplanes_agree_nets_partial` — the three-way statement (with the checker model) extended by the
-  literal CIDR criteria.
-* `profile_pass_disagree`, `stale_pass_mark_disagree`, `checker_ignores_ip_family` — the full statement
-  is FALSE: witnesses.
+* `dataplanes_agree_nets_partial` — THREE-WAY, literal CIDRs: rendered endpoint chain (a10's
+  `C09.endpoint_chain_verdict_core`), interpreted BPF program (`C11.polprog_verdict_partial`) and
+  checker model (`checkTiersN`) yield the same verdict `v`, for rules carrying protocol / not-protocol
+  and IPv4 source / not-source / destination / not-destination CIDR lists (`RuleFullN U` ∧ `NetsL4`).
+  `U` is the list of CIDRs the policy mentions; `EnvRelN N U` asks the kernel-side environment to
+  describe the same packet and, for the CIDRs of `U` only, the same containment.
+  NOT covered: IPv6 flows and IPv6 CIDRs in a rule (`RuleFullN.v4`; for mixed-family lists the
+  statement is FALSE: `checker_ignores_ip_family`); explicit `ipVersion`; pass rules in profiles
+  (FALSE: `profile_pass_disagree`); tiers without an enforced policy (`staged_only_tier_skipped`
+  covers the checker side alone); a BPF build that is split or uses trampolines (`NoSplit`, `hshort`,
+  one program); packets of an established connection / endpoints with failsafes (hypotheses `h1`…`h6`
+  of the C09 theorem); criteria the checker evaluates through its own stores (selectors, named ports,
+  service accounts, HTTP) — those are outside the checker MODEL, see `checks/C12.json` level_note.
+* `dataplanes_agree_partial` — the same three-way statement on the protocol-only fragment
+  (`TiersCommon`: protocol / not-protocol, numbers or names), kept because its hypotheses are the
+  simplest to read.  NOT covered: every other criterion (→ the statement above), and the same list.
+* `ipt_bpf_agree_full_partial` — TWO-WAY, ALL criteria: rendered chains and BPF program agree for rules
+  with protocol, IPv4 CIDR lists, numeric and named ports, IP sets, (ip,port) sets, ICMP type/code and
+  all negations (`RuleFullN U`).  NOT covered: the checker (its model has protocol and CIDR criteria
+  only); IPv6; pass rules in profiles; split/trampolined BPF builds; as above.
+* `references_agree_full_partial` — the lemma under the two statements above, of independent
+  interest: `C09.endpointVerdict` over `Model/Policy.ruleMatches` of the translated rules
+  (`trRuleFN`) equals the C11 reference workload verdict, under `EnvRelN`.  It is a statement about
+  two hand-written reference functions; the tie to rendered chains / instructions is made by the
+  C09 and C11 theorems composed in the statements above.  NOT covered: IPv6, profile pass rules.
+
+## Per-side statements
+
+* `checker_tiers_ref`, `checker_tiers_nets_ref` — the checker model (without / with CIDRs) computes the
+  C11 reference verdict (`checker_rules_ref`, `checker_profiles_ref`, `checker_match_nets_ref` are the
+  per-loop / per-rule steps).  The model itself is tied to the Go code by the correspondence run only.
+* `checker_bpf_agree_nets_partial` — checker model and BPF program agree on the CIDR fragment (the
+  two-way part of `dataplanes_agree_nets_partial`, without the `RuleFullN`/`EnvRelN` hypotheses).
+  Profile pass rules ARE allowed here (BPF and checker treat them alike).  NOT covered: the iptables
+  side; IPv6 flows / IPv6 CIDRs / explicit ipVersion; split or trampolined BPF builds.
+* `ref_semantics_agree_partial`, `profiles_agree_partial` — the mark-bit model of the profile part of
+  the iptables endpoint chain (`iptVerdict`) and the C11 reference coincide when no profile has a pass
+  rule.  Two hand-written references only (`iptVerdict` is tied to the real renderer by the
+  correspondence run, not by proof); NOT covered: profiles with pass rules (FALSE, next item).
+* `staged_only_tier_skipped` — a tier whose policies are all staged is skipped by the checker model
+  like by the dataplanes (the case `TiersCommon`/`TiersOkG` exclude).
+
+## The full statement is FALSE of the code: witnesses
+
+* `profile_pass_disagree`, `stale_pass_mark_disagree` — a profile rule with action pass: iptables
+  leaves the pass mark set and falls to the next profile, BPF/checker end the evaluation
+  (KNOWN-FINDING sig `profile-pass`).
+* `checker_ignores_ip_family` — the checker neither reads `ipVersion` nor drops rules whose negated
+  CIDR list holds only other-family CIDRs (KNOWN-FINDING sig `checker-ip-family`).
+
+Every hypothesis bundle has a satisfiability example next to its theorem (`exL4a/b`, `exNets`, `exFull`,
+`exU`, `exNames`/`exEnv9`/`exPkt9`/`exP`, `exTiersN`, the `hT`/`hP` layout example), and the conclusion
+of the unified reference is evaluated on `exTiersN` (ALLOW for 10.1.2.3 → 192.168.0.1, DENY into 10/8).
 -/
 namespace CalicoVerif.C12
 open CalicoVerif.C11
@@ -76,7 +95,8 @@ theorem evalRules_ne_pass (env : Env) (p : Pkt) (leg : Leg) :
         cases ha : actOf r.action <;> simp_all
       · simp only [hm, Bool.false_eq_true, if_false]; exact ih'
 
-/-- Without pass rules in profiles the two profile semantics coincide. -/
+/-- Without pass rules in profiles the two profile semantics coincide (step of
+`ref_semantics_agree_partial`; `_partial`: profiles with a pass rule are NOT covered — false there). -/
 theorem profiles_agree_partial (env : Env) (p : Pkt) :
     ∀ ps : List Policy, NoProfilePass ps → evalProfiles true env p ps = evalProfiles false env p ps := by
   intro ps
@@ -148,7 +168,9 @@ theorem iptTiers_fst (env : Env) (p : Pkt) :
 
 /-- The two REFERENCE functions `iptVerdict` (mark-bit model of the iptables endpoint chain's
 profile part) and `bpfVerdict` (C11 reference) coincide for every workload policy whose profiles
-contain no pass/next-tier rule: any tiers, packets, IP-set environments. -/
+contain no pass/next-tier rule: any tiers, packets, IP-set environments.  `_partial`: NOT covered are
+profiles with a pass rule (false: the two witnesses below); and both sides are hand-written references —
+the tie to rendered chains / instructions is `dataplanes_agree_partial`. -/
 theorem ref_semantics_agree_partial (env : Env) (r : Rules) (p : Pkt) (h : ProfilesNoPass r.profiles) :
     iptVerdict env r p = bpfVerdict env r p := by
   unfold iptVerdict bpfVerdict workloadVerdict
@@ -298,7 +320,9 @@ theorem checker_match_nets_ref (env : Env) (hv4 : env.c.v6 = false) (p : Pkt) (n
 
 /-- **app-policy and BPF agree with literal CIDRs**: for a workload interface without host policy,
 rules of the protocol + IPv4-CIDR fragment and any flow, the BPF program's instructions, interpreted,
-end as verdict `v` demands, and the checker answers OK iff `v` is allow. -/
+end as verdict `v` demands, and the checker answers OK iff `v` is allow.  (`_partial`: NOT covered are the
+iptables side, IPv6 flows / IPv6 CIDRs / explicit `ipVersion` — `NetsL4` —, criteria beyond protocol and
+CIDRs, and split or trampolined BPF builds — `NoSplit`, `hshort`, one program.) -/
 theorem checker_bpf_agree_nets_partial (tiers : List Tier) (profiles : List Policy) (np : Nat) (env : Env)
     (st : List Byte) (src dst : Nat)
     (hct : TiersNetsL4 tiers) (hcp : PoliciesNetsL4 profiles) (hv4 : env.c.v6 = false)
@@ -320,6 +344,8 @@ theorem checker_bpf_agree_nets_partial (tiers : List Tier) (profiles : List Poli
 def exNets : Rule :=
   { action := "allow", protocol := some (Proto.name "tcp"), srcNet := [{ v6 := false, addr := 0x0a010000, pfx := 16 }],
     notDstNet := [{ v6 := false, addr := 0x0a000000, pfx := 8 }] }
+/-- the CIDR universe of `exNets` (what the kernel-side environment has to describe) -/
+def exU : List Net := [{ v6 := false, addr := 0x0a010000, pfx := 16 }, { v6 := false, addr := 0x0a000000, pfx := 8 }]
 example : NetsL4 exNets := ⟨rfl, by intro n hn; simp [exNets] at hn; rcases hn with rfl | rfl <;> rfl⟩
 -- ... and the checker model decides it per side: source inside 10.1/16, destination inside / outside 10/8
 example : matchRuleN exNets 6 0x0a010203 0x0a000002 = false ∧ matchRuleN exNets 6 0x0a010203 0xc0a80001 = true ∧
@@ -345,7 +371,10 @@ theorem checker_ignores_ip_family :
         postDport := 0, proto := 6, flags := 0 } = .deny := by
   decide
 
-/-- **All dataplanes agree** (common fragment, see the header). -/
+/-- **All dataplanes agree**, protocol-only fragment (`TiersCommon`/`ProfilesCommon`).  `_partial`: NOT covered
+are all other criteria (CIDRs: `dataplanes_agree_nets_partial`), IPv6, pass rules in profiles (false:
+`profile_pass_disagree`), tiers without enforced policy, split or trampolined BPF builds, packets of an
+established connection and endpoints with failsafes / non-normal chain type (`h1`…`h6`). -/
 theorem dataplanes_agree_partial
     -- the shared policy state and packet
     (tiers : List Tier) (profiles : List Policy) (np : Nat) (env : Env) (st : List Byte)
@@ -413,10 +442,13 @@ theorem dataplanes_agree_partial
 criterion (protocol, IPv4 CIDR lists, numeric and named ports, IP sets, (ip,port) sets, ICMP type/code
 and all their negations — `RuleFullN`: as the API validates them, CIDRs IPv4), a10's `C09.endpointVerdict` over
 `Model/Policy.ruleMatches` of the translated rules equals the C11 reference workload verdict, when
-the two environments describe the same packet, the same IP sets and the same CIDR containment (`EnvRelN`). -/
-theorem references_agree_full_partial {N : NamesN} {env9 : Netfilter.Env} {pkt9 : Netfilter.Packet} {env : Env} {p : Pkt}
-    (he : EnvRelN N env9 pkt9 env p) (tiers : List Tier) (profiles : List Policy)
-    (hct : TiersOkG RuleFullN tiers) (hcp : ProfilesOkG RuleFullN profiles) :
+the two environments describe the same packet, the same IP sets and, for the CIDRs `U` the policy mentions,
+the same CIDR containment (`EnvRelN`).  `_partial`: NOT covered are IPv6 packets, IPv6 CIDRs and explicit
+`ipVersion` in a rule, pass rules in profiles, tiers without an enforced policy. -/
+theorem references_agree_full_partial {N : NamesN} {U : List Net} {env9 : Netfilter.Env} {pkt9 : Netfilter.Packet}
+    {env : Env} {p : Pkt}
+    (he : EnvRelN N U env9 pkt9 env p) (tiers : List Tier) (profiles : List Policy)
+    (hct : TiersOkG (RuleFullN U) tiers) (hcp : ProfilesOkG (RuleFullN U) profiles) :
     C09.endpointVerdict (tiers.map (fun t => (outsG env9 pkt9 (trRuleFN N) t.policies, t.endAction == .pass)))
         (outsG env9 pkt9 (trRuleFN N) profiles) =
       toV9 (match evalTiers env p .dest tiers with
@@ -430,10 +462,11 @@ theorem references_agree_full_partial {N : NamesN} {env9 : Netfilter.Env} {pkt9 
 (`C11.polprog_verdict_partial`) yield the same verdict, over ONE reference
 (`references_agree_full_partial`).  Same hypotheses as `dataplanes_agree_partial`, with `RuleFullN`
 rules and `EnvRelN` instead of the protocol-only fragment; the app-policy checker is not part of this
-statement (its model covers protocol and CIDR criteria only: `dataplanes_agree_nets_partial`). -/
+statement (its model covers protocol and CIDR criteria only: `dataplanes_agree_nets_partial`).  `_partial`:
+NOT covered are also IPv6, pass rules in profiles, split or trampolined BPF builds, established connections. -/
 theorem ipt_bpf_agree_full_partial
-    (N : NamesN) (tiers : List Tier) (profiles : List Policy) (np : Nat) (env : Env) (st : List Byte)
-    (hct : TiersOkG RuleFullN tiers) (hcp : ProfilesOkG RuleFullN profiles)
+    (N : NamesN) (U : List Net) (tiers : List Tier) (profiles : List Policy) (np : Nat) (env : Env) (st : List Byte)
+    (hct : TiersOkG (RuleFullN U) tiers) (hcp : ProfilesOkG (RuleFullN U) profiles)
     (hok : ProgOK env st (wlRules tiers profiles np))
     (hs : env.stateOK = true) (hnosplit : NoSplit env.c (flat (compile env.c (wlRules tiers profiles np))))
     (hshort : (flat (compile env.c (wlRules tiers profiles np))).length < env.c.trampolineStride)
@@ -458,7 +491,7 @@ theorem ipt_bpf_agree_full_partial
     (o2 : ∀ t ∈ tiers9, ∀ g ∈ t.groups, g.inlined = false →
       out g.chain = C09.firstDecision (g.nonStaged.map fun p => C09.policyOutcome env9 pkt9.v6 pkt9 (polRules p.chain)))
     (o3 : ∀ p ∈ profiles9, out p = C09.policyOutcome env9 pkt9.v6 pkt9 (polRules p))
-    (he : EnvRelN N env9 pkt9 env (pktOfD st))
+    (he : EnvRelN N U env9 pkt9 env (pktOfD st))
     (hT : tiers9.map (fun t => ((C09.tierTargets t).map (fun th => out th.1), t.defaultPass)) =
       tiers.map (fun t => (outsG env9 pkt9 (trRuleFN N) t.policies, t.endAction == .pass)))
     (hP : profiles9.map out = outsG env9 pkt9 (trRuleFN N) profiles) :
@@ -485,10 +518,15 @@ theorem ipt_bpf_agree_full_partial
 /-- **All three agree with literal CIDRs**: on rules carrying protocol / not-protocol and IPv4 source /
 not-source / destination / not-destination CIDR lists (the intersection of `RuleFullN` and `NetsL4`),
 the rendered iptables/nftables endpoint chain, the interpreted BPF program AND the app-policy checker
-model yield the same verdict — `dataplanes_agree_partial` extended by the CIDR criteria. -/
+model yield the same verdict — `dataplanes_agree_partial` extended by the CIDR criteria.  `_partial`: NOT
+covered are IPv6 flows, IPv6 CIDRs and explicit `ipVersion` (false: `checker_ignores_ip_family`), pass rules
+in profiles (false: `profile_pass_disagree`), the criteria outside the checker model (ports, IP sets, ICMP:
+two-way only, `ipt_bpf_agree_full_partial`), tiers without enforced policy, split or trampolined BPF builds,
+established connections / failsafes. -/
 theorem dataplanes_agree_nets_partial
-    (N : NamesN) (tiers : List Tier) (profiles : List Policy) (np : Nat) (env : Env) (st : List Byte) (src dst : Nat)
-    (hct : TiersOkG RuleFullN tiers) (hcp : ProfilesOkG RuleFullN profiles)
+    (N : NamesN) (U : List Net) (tiers : List Tier) (profiles : List Policy) (np : Nat) (env : Env) (st : List Byte)
+    (src dst : Nat)
+    (hct : TiersOkG (RuleFullN U) tiers) (hcp : ProfilesOkG (RuleFullN U) profiles)
     (hctN : TiersNetsL4 tiers) (hcpN : PoliciesNetsL4 profiles)
     (hn : 1 ≤ (pktOfD st).proto.toNat) (hf : FlowAddrs (pktOfD st) src dst)
     (hok : ProgOK env st (wlRules tiers profiles np))
@@ -515,7 +553,7 @@ theorem dataplanes_agree_nets_partial
     (o2 : ∀ t ∈ tiers9, ∀ g ∈ t.groups, g.inlined = false →
       out g.chain = C09.firstDecision (g.nonStaged.map fun p => C09.policyOutcome env9 pkt9.v6 pkt9 (polRules p.chain)))
     (o3 : ∀ p ∈ profiles9, out p = C09.policyOutcome env9 pkt9.v6 pkt9 (polRules p))
-    (he : EnvRelN N env9 pkt9 env (pktOfD st))
+    (he : EnvRelN N U env9 pkt9 env (pktOfD st))
     (hT : tiers9.map (fun t => ((C09.tierTargets t).map (fun th => out th.1), t.defaultPass)) =
       tiers.map (fun t => (outsG env9 pkt9 (trRuleFN N) t.policies, t.endAction == .pass)))
     (hP : profiles9.map out = outsG env9 pkt9 (trRuleFN N) profiles) :
@@ -545,21 +583,62 @@ theorem dataplanes_agree_nets_partial
 def exFull : Rule :=
   { action := "allow", protocol := some (Proto.name "tcp"), srcIpSetIds := [7], notDstIpSetIds := [9],
     dstPorts := [{ first := 80, last := 80 }, { first := 8000, last := 8080 }] }
-example : RuleFullN exFull := by
+example : RuleFullN [] exFull := by
   refine ⟨⟨Or.inl rfl, trivial, trivial, ⟨rfl, rfl, rfl, rfl, rfl⟩, ?_, ?_, ?_, ⟨trivial, trivial⟩, by decide⟩,
-    by intro n hn; simp [exFull] at hn⟩
+    by intro n hn; simp [exFull] at hn, by intro n hn; simp [exFull] at hn⟩
   · intro pr h
     simp [exFull, clearNets] at h
     rcases h with rfl | rfl <;> exact ⟨by decide, by decide, by decide⟩
   · intro _; exact ⟨_, 6, rfl, by decide, Or.inl rfl⟩
   · intro h; rcases h with h | h <;> exact absurd rfl h
 -- ... and so is the CIDR rule of the checker fragment
-example : RuleFullN exNets := by
-  refine ⟨⟨Or.inl rfl, trivial, trivial, ⟨rfl, rfl, rfl, rfl, rfl⟩, ?_, ?_, ?_, ⟨trivial, trivial⟩, by decide⟩, ?_⟩
+theorem exNets_full : RuleFullN exU exNets := by
+  refine ⟨⟨Or.inl rfl, trivial, trivial, ⟨rfl, rfl, rfl, rfl, rfl⟩, ?_, ?_, ?_, ⟨trivial, trivial⟩, by decide⟩, ?_, ?_⟩
   · intro pr h; simp [exNets, clearNets] at h
   · intro h; exact absurd rfl h
   · intro h; rcases h with h | h <;> exact absurd rfl h
   · intro n hn; simp [exNets] at hn; rcases hn with rfl | rfl <;> rfl
+  · intro n hn; simp [exNets] at hn; rcases hn with rfl | rfl <;> simp [exU]
+
+-- non-vacuity of `EnvRelN`: a kernel-side environment and packet that describe the C11-side packet
+-- 10.1.2.3 -> 192.168.0.1 (tcp, 1234 -> 80), no IP sets, and contain exactly the two CIDRs of `exNets`
+def exNames : NamesN :=
+  { set := fun id => toString id,
+    cidr := fun n => if n.v6 then ":" else if n.pfx = 16 then "10.1.0.0/16" else "10.0.0.0/8",
+    cidrFam := by
+      intro n
+      cases hv : n.v6 <;> by_cases h : n.pfx = 16 <;> simp [h, Policy.cidrIsV6] <;> decide }
+def exEnv9 : Netfilter.Env :=
+  { netContains := fun c a => if c = "10.1.0.0/16" then a / 65536 == 0x0a01 else if c = "10.0.0.0/8" then a / 16777216 == 10 else false,
+    protoNum := fun s => protoNumberRef (.name s) }
+def exPkt9 : Netfilter.Packet := { proto := 6, src := 0x0a010203, dst := 0xc0a80001, sport := 1234, dport := 80 }
+def exP : Pkt :=
+  { src := [rev32bv 0x0a010203#32, 0, 0, 0], preDst := [rev32bv 0xc0a80001#32, 0, 0, 0],
+    postDst := [rev32bv 0xc0a80001#32, 0, 0, 0], sport := 1234, icmpW := 0, preDport := 80, postDport := 80, proto := 6,
+    flags := 0 }
+theorem exEnvRel : EnvRelN exNames exU exEnv9 exPkt9 { c := exCfg } exP := by
+  refine ⟨⟨rfl, rfl, fun s => rfl, rfl, rfl, rfl, rfl, rfl, fun _ => rfl, fun _ => rfl, fun _ => rfl, fun _ => rfl⟩, ?_, ?_⟩
+  · intro n hn _; simp [exU] at hn; rcases hn with rfl | rfl <;> decide
+  · intro n hn _; simp [exU] at hn; rcases hn with rfl | rfl <;> decide
+example : FlowAddrs exP 0x0a010203 0xc0a80001 := ⟨rfl, rfl⟩
+
+-- non-vacuity of the tier/profile fragments of `dataplanes_agree_nets_partial`, and of its conclusion: on this
+-- policy state and packet the unified reference (hence every one of the three sides) says ALLOW, and
+-- DENY once the destination lies inside 10.0.0.0/8
+def exTiersN : List Tier := [{ endAction := EndAction.deny, endRuleID := 0, policies := [{ rules := [exNets] }] }]
+theorem exTiersN_ok : TiersOkG (RuleFullN exU) exTiersN ∧ TiersNetsL4 exTiersN := by
+  refine ⟨?_, ?_⟩ <;> intro t ht <;> simp [exTiersN] at ht <;> subst ht <;> refine ⟨by simp, ?_⟩ <;>
+    intro pol hp <;> simp at hp <;> subst hp <;> intro r hr <;> simp at hr <;> subst hr
+  · exact exNets_full
+  · exact ⟨⟨rfl, by intro n hn; simp [exNets] at hn; rcases hn with rfl | rfl <;> rfl⟩, by decide⟩
+example :
+    C09.endpointVerdict (exTiersN.map (fun t => (outsG exEnv9 exPkt9 (trRuleFN exNames) t.policies, t.endAction == .pass)))
+        (outsG exEnv9 exPkt9 (trRuleFN exNames) []) = toV9 .allow ∧
+      checkTiersN 6 0x0a010203 0xc0a80001 [] exTiersN = some true ∧
+      checkTiersN 6 0x0a010203 0x0a000002 [] exTiersN = some false := by
+  refine ⟨?_, by decide, by decide⟩
+  rw [references_agree_full_partial exEnvRel exTiersN [] exTiersN_ok.1 ⟨(by intro _ h; cases h), (by intro _ h; cases h)⟩]
+  decide
 
 -- non-vacuity of the layout hypotheses `hT` / `hP`: one tier holding one single-policy group, one profile
 example (env9 : Netfilter.Env) (pkt9 : Netfilter.Packet) (rs ps : List Rule) :
@@ -589,5 +668,13 @@ example : TiersCommon [{ endAction := EndAction.deny, endRuleID := 0, policies :
   rcases hr with rfl | rfl
   · exact ⟨rfl, Or.inl rfl, trivial, trivial⟩
   · exact ⟨rfl, Or.inr (Or.inl rfl), trivial, ⟨by decide, by decide⟩⟩
+example : ProfilesCommon [{ rules := [exL4a, exL4b] }] ∧ EnvProto exEnv9 := by
+  refine ⟨⟨?_, ?_⟩, fun _ => rfl⟩ <;> intro pol hp r hr <;> simp at hp <;> subst hp <;> simp at hr
+  · rcases hr with rfl | rfl
+    · exact ⟨rfl, Or.inl rfl, trivial, trivial⟩
+    · exact ⟨rfl, Or.inr (Or.inl rfl), trivial, ⟨by decide, by decide⟩⟩
+  · rcases hr with rfl | rfl <;> decide
+-- (the BPF-side hypotheses `ProgOK` / `instructions … = some (some [prog])` are satisfiable: `C11.exRules_progOK`
+-- and the examples after it in Props/C11.lean; the C09-side hypotheses are those of a10's theorem, see Props/C09.lean)
 
 end CalicoVerif.C12
